@@ -41,11 +41,17 @@ ASSUMPTIONS = ["steps are large against the open-end epsilon 1e-5 (crop/extend u
                "centre placement with an odd difference may round either way",
                "original samples of extend_dim may be NaN / +inf / -inf (they must survive as such); fills are finite",
                "width calls also run on 2-D arrays along the first and along the second dimension; every row along the operated dimension is judged",
+               "sample dtype (float64/float32/int16/int32/uint8/bool) and axis dtype (float64/float32/int64) vary independently on a subset; "
+               "float32 axes only on dyadic steps, integer axes only on integer lattices; fills are 0 there",
+               "centre placement: the statement says 'centre', so the odd sample may sit on either side (BlockPlacement); the split the "
+               "implementation uses (front = extra // 2; crop from n // 2 - w // 2) is tracked as MODEL-DRIFT (Drift/CentreSplit), not demanded",
                "the statement does not say what extend_dim_width puts into new samples nor where their coordinates lie: not judged"]
 
 BAD = -999999
 
 
+DATA_DTYPES = {"f8": np.float64, "f4": np.float32, "i2": np.int16, "i4": np.int32, "u1": np.uint8}
+AXIS_DTYPES = {"f8": np.float64, "f4": np.float32, "i8": np.int64}
 SPECIAL = {1: float("nan"), 2: float("inf"), 3: float("-inf")}       # codes of case["sv"]
 
 
@@ -64,6 +70,11 @@ def build(case):
     fs = Fraction(case["s"][0], case["s"][1])
     n = case["n"]
     coords = np.array([float(a + i * fs) for i in range(n)], dtype=float)
+    ad, dd = case.get("ad", "f8"), case.get("dd", "f8")
+    if ad != "f8":                                                  # dtype of the AXIS: float32 / int64 (integer lattice)
+        if ad == "i8" and (a.denominator != 1 or fs.denominator != 1):
+            raise ValueError("an integer axis needs an integer start and step")
+        coords = coords.astype(AXIS_DTYPES[ad])
     if case.get("src", "attr") == "attr":
         cv = xr.Variable("x", coords, attrs={"step": float(fs)})
     else:
@@ -72,10 +83,12 @@ def build(case):
     for j, code in enumerate(case.get("sv", [])):
         if code:
             data[j] = SPECIAL[code]                                 # an original sample that is NaN / +inf / -inf
+    if dd != "f8":                                                  # dtype of the SAMPLES; a boolean array holds True everywhere
+        data = np.ones(n, dtype=bool) if dd == "b1" else data.astype(DATA_DTYPES[dd])
     od = case.get("od", 0)
     if od:
         # 2-D array: sample i of the operated dimension x holds i + 1 + 100*k at index k of the other dimension y
-        full = data[:, None] + 100.0 * np.arange(od)[None, :]
+        full = data[:, None].astype(float) + 100.0 * np.arange(od)[None, :]
         dims = ["x", "y"]
         if case.get("ax", 1) == 2:
             full, dims = full.T, ["y", "x"]
@@ -204,6 +217,24 @@ def random_cases(rng, tier):
                "n": n, "src": src, "w": w, "pos": rng.choice(["start", "center", "end"]),
                **(dict(od=rng.randrange(1, 12), ax=rng.choice([1, 2])) if rng.random() < 0.4 else dict(od=0, ax=1))}
     yield from random_chains(rng, 100 * k)
+    for _ in range(120 * k):                                        # sample / axis dtypes on longer axes
+        s = rng.choice([[1, 1], [2, 1], [1, 4], [1, 10], [1, 3]])
+        ad = rng.choice(["f8", "f8", "i8"]) if s[1] == 1 else rng.choice(["f8", "f8", "f4"]) if s == [1, 4] else "f8"
+        dd = rng.choice(["i2", "i4", "u1", "f4", "b1", "f8"])
+        n = rng.randrange(1, 40)
+        a4 = 4 * rng.randrange(-5, 6)
+        kind = rng.choice(["crop", "extend", "width"])
+        if kind == "crop":
+            ms = rng.randrange(0, 4 * (n - 1) + 1)
+            yield {"kind": "crop", "s": s, "a4": a4, "n": n, "ms": ms, "me": rng.randrange(ms, 4 * (n - 1) + 1), "lc": rng.random() < 0.5,
+                   "rc": rng.random() < 0.5, "dd": dd, "ad": ad}
+        elif kind == "extend":
+            lc, rc = rng.random() < 0.5, rng.random() < 0.5
+            yield {"kind": "extend", "s": s, "a4": a4, "n": n, "src": "attr", "ms": -rng.randrange(0 if lc else 1, 40),
+                   "me": 4 * (n - 1) + rng.randrange(0 if rc else 1, 40), "lc": lc, "rc": rc, "fill": 0, "sv": [0] * n, "dd": dd, "ad": ad}
+        else:
+            yield {"kind": "width", "fn": "adjust", "s": s, "a4": a4, "n": n, "src": "attr", "w": rng.randrange(1, n + 14),
+                   "pos": rng.choice(["start", "center", "end"]), "od": 0, "ax": 1, "dd": dd, "ad": ad}
 
 
 def _op(op, ms=0, me=0, lc=True, rc=True, w=0, pos=""):
